@@ -67,7 +67,7 @@ sim::Json GenOpts::to_json() const {
     j["allow_msw"] = allow_msw; j["allow_history"] = allow_history; j["allow_groups"] = allow_groups;
     j["restart_safe_conditions"] = restart_safe_conditions; j["nonmidnight"] = nonmidnight; j["step_events"] = step_events;
     j["action_inline_safe"] = action_inline_safe; j["vector_target"] = vector_target; j["units"] = units;
-    j["fmtout"] = fmtout; j["unifout"] = unifout; j["esmry"] = esmry; j["rptonly"] = rptonly; j["sumthin"] = sumthin; j["date_conditions"] = date_conditions; j["nested_parens"] = nested_parens; j["stop_safe"] = stop_safe; j["weltarg_safe"] = weltarg_safe; j["cond_well_bias"] = cond_well_bias; j["min_wells"] = min_wells; j["reparent_groups"] = reparent_groups; j["late_edits"] = late_edits; j["geo_kws"] = geo_kws; j["family_snippets"] = family_snippets; j["family_static_free"] = family_static_free; j["tuning_vfp"] = tuning_vfp; j["udq_unary_minus"] = udq_unary_minus;
+    j["fmtout"] = fmtout; j["unifout"] = unifout; j["esmry"] = esmry; j["rptonly"] = rptonly; j["sumthin"] = sumthin; j["date_conditions"] = date_conditions; j["nested_parens"] = nested_parens; j["stop_safe"] = stop_safe; j["weltarg_safe"] = weltarg_safe; j["cond_well_bias"] = cond_well_bias; j["min_wells"] = min_wells; j["reparent_groups"] = reparent_groups; j["late_edits"] = late_edits; j["geo_kws"] = geo_kws; j["family_snippets"] = family_snippets; j["family_static_free"] = family_static_free; j["tuning_vfp"] = tuning_vfp; j["udq_unary_minus"] = udq_unary_minus; if (per_step_kws) j["per_step_kws"] = true;
     return j;
 }
 GenOpts GenOpts::from_json(const Json& j0) {
@@ -82,7 +82,7 @@ GenOpts GenOpts::from_json(const Json& j0) {
     o.step_events = j.getb("step_events", o.step_events); o.action_inline_safe = j.getb("action_inline_safe", o.action_inline_safe);
     o.vector_target = static_cast<int>(j.geti("vector_target", 0)); o.units = j.gets("units", "");
     o.fmtout = static_cast<int>(j.geti("fmtout", -1)); o.unifout = static_cast<int>(j.geti("unifout", -1)); o.esmry = j.getb("esmry", false);
-    o.rptonly = j.getb("rptonly", false); o.sumthin = j.getb("sumthin", false); o.date_conditions = j.getb("date_conditions", o.date_conditions); o.nested_parens = j.getb("nested_parens", o.nested_parens); o.stop_safe = j.getb("stop_safe", o.stop_safe); o.cond_well_bias = j.getd("cond_well_bias", 0.0); o.min_wells = static_cast<int>(j.geti("min_wells", 1)); o.reparent_groups = j.getb("reparent_groups", false); o.late_edits = j.getb("late_edits", false); o.geo_kws = j.getb("geo_kws", false); o.family_snippets = j.getb("family_snippets", false); o.family_static_free = j.getb("family_static_free", false); o.tuning_vfp = j.getb("tuning_vfp", false); o.udq_unary_minus = j.getb("udq_unary_minus", false); o.weltarg_safe = j.getb("weltarg_safe", false);   // absent in replay files written before the knob existed
+    o.rptonly = j.getb("rptonly", false); o.sumthin = j.getb("sumthin", false); o.date_conditions = j.getb("date_conditions", o.date_conditions); o.nested_parens = j.getb("nested_parens", o.nested_parens); o.stop_safe = j.getb("stop_safe", o.stop_safe); o.cond_well_bias = j.getd("cond_well_bias", 0.0); o.min_wells = static_cast<int>(j.geti("min_wells", 1)); o.reparent_groups = j.getb("reparent_groups", false); o.late_edits = j.getb("late_edits", false); o.geo_kws = j.getb("geo_kws", false); o.family_snippets = j.getb("family_snippets", false); o.family_static_free = j.getb("family_static_free", false); o.tuning_vfp = j.getb("tuning_vfp", false); o.udq_unary_minus = j.getb("udq_unary_minus", false); o.weltarg_safe = j.getb("weltarg_safe", false); o.per_step_kws = j.getb("per_step_kws", false);  // absent in replay files written before the knob existed
     return o;
 }
 
@@ -288,6 +288,24 @@ struct Gen {
         if (o.reparent_groups && u < 0.08) { k = reparent(true); if (!k.recs.empty()) return k; k = Kw(); }
         if (o.geo_kws && rng.chance(0.2)) return geo_kw();
         if (o.tuning_vfp && rng.chance(0.2)) return nextstep_kw();
+        if (o.per_step_kws && rng.chance(0.35)) {
+            // keywords whose meaning is defined per report step (C04 exception clause).  Action-side WPIMULT factors are powers of two so
+            // that the accumulated product is exact in either association.
+            const WellDef& w = m.wells[rng.below(m.wells.size())];
+            const bool named = rng.chance(0.5);
+            const std::string kk = std::to_string(static_cast<int>(rng.range(w.k1, w.k2)));
+            if (rng.chance(0.5)) {
+                static const char* f[] = {"0.25", "0.5", "2", "4"};
+                k.name = "WPIMULT"; const int nr = rng.chance(0.25) ? 2 : 1;
+                for (int r2 = 0; r2 < nr; ++r2) { k.recs.push_back({q(named ? w.name : std::string("?")), f[rng.below(4)]}); if (named && rng.chance(0.3)) { k.recs.back().push_back("2*"); k.recs.back().push_back(kk); } }
+            } else {
+                k.name = "WELOPEN"; const double v = rng.unit();
+                // one connection (named well: its K; '?': any K in the grid) or all connections ("0 0 0")
+                const std::string ksel = v < 0.5 ? (named ? kk : std::to_string(static_cast<int>(rng.range(1, m.nz)))) : "0";
+                k.recs.push_back({q(named ? w.name : std::string("?")), q(rng.chance(0.5) ? "SHUT" : "OPEN"), "0", "0", ksel, "2*"});
+            }
+            return k;
+        }
         if (u < 0.35) { k.name = "WELOPEN"; static const char* st[] = {"SHUT", "OPEN", "STOP", "SHUT"}; k.recs.push_back({q(wn()), q(st[rng.below(4)])}); }
         else if (u < 0.55) { k.name = "WEFAC"; k.recs.push_back({q(wn()), num(efac())}); }
         else if (u < 0.70 && !prods.empty()) { k.name = "WELTARG"; static const char* md[] = {"ORAT", "LRAT", "BHP", "WRAT"}; std::string mo = md[rng.below(4)]; k.recs.push_back({q(prods[rng.below(prods.size())]), q(mo), num(mo == "BHP" ? bhp_lim(false) : rate())}); }
@@ -447,6 +465,11 @@ struct Gen {
                 std::vector<const WellDef*> inj; for (auto& w : m.wells) if (w.kind != "OPROD") inj.push_back(&w);
                 if (!inj.empty()) { WellDef sw = *inj[rng.below(inj.size())]; sw.history = false; sw.kind = "OPROD"; st.kws.push_back(wcon(sw, "OPEN")); }
             }
+            if (o.per_step_kws && rng.chance(0.35)) {
+                // a well-wide WPIMULT for most wells in this block: an application at this step then multiplies onto a closed pass
+                Kw k; k.name = "WPIMULT"; for (auto& w : m.wells) if (rng.chance(0.8)) k.recs.push_back({q(w.name), num(std::round(rng.real(0.25, 2.5) * 100) / 100)});
+                if (!k.recs.empty()) st.kws.push_back(k);
+            }
             for (int e = 0; e < ne; ++e) {
                 double u = rng.unit(); Kw k;
                 const WellDef& w = m.wells[rng.below(m.wells.size())];
@@ -463,6 +486,7 @@ struct Gen {
                     else if (v < 0.88 && w.kind == "OPROD") { k.name = "WECON"; k.recs.push_back({q(w.name), num(std::round(rng.real(1, 50))), "1*", num(std::round(rng.real(0.5, 0.95) * 100) / 100), "2*", q("WELL")}); }
                     else { k.name = "WTEST"; k.recs.push_back({q(w.name), num(static_cast<double>(rng.range(1, 30))), q("PE")}); }
                 }
+                else if (o.per_step_kws && rng.chance(0.25)) { k.name = "WELOPEN"; k.recs.push_back({q(w.name), q(rng.chance(0.7) ? "SHUT" : "OPEN"), "0", "0", rng.chance(0.6) ? std::string("0") : std::to_string(static_cast<int>(rng.range(w.k1, w.k2))), "2*"}); }
                 else if (o.reparent_groups && u < 0.12) { k = reparent(false); if (k.recs.empty()) { k.name = "WEFAC"; k.recs.push_back({q(w.name), num(efac())}); } }
                 else if (u < 0.2) { k.name = "WEFAC"; k.recs.push_back({q(w.name), num(efac())}); }
                 else if (u < 0.32) { k.name = "GEFAC"; k.recs.push_back({q(groups[rng.below(groups.size())]), num(efac())}); }
